@@ -86,7 +86,7 @@ impl Prop for C10 {
         let conf = gen::wconf_with(Just(0u8).boxed());
         let s = (conf, gen::entry_src(tier), vec(any::<u16>(), 60), vec(gen::probe(), 20), vec(range_strategy(), 10), vec(prefix_strategy(), 10), gen::history(120))
             .prop_map(|(conf, src, picks, probes, ranges, prefixes, ops)| Case { spec: FileSpec { conf, src }, picks, probes, ranges, prefixes, ops });
-        vec![stage("files", s, tier.pick(1500, 40_000)).shrink(600)]
+        vec![stage("files", s, tier.pick(4000, 60_000)).shrink(600)]
     }
 
     fn rule(&self) -> String {
